@@ -483,9 +483,11 @@ PROPS["C07"] = {"theorems": ["C07_strict_tree_partial", "C07_strict_iff_partial"
                              "C07_none", "C07_list_step", "derive_scalar", "defaultCoerce_typed", "strict_scalar_iff", "C07_strict_tree2_partial", "C07_strict_iff2_partial", "node_utuple_plain", "node_ntuple_plain", "node_maybe", "hasTypeZip_slots",
                              "C07_default_tree_partial", "C07_default_iff_partial", "C07_default_complete_partial",
                              "C07_default_sound_partial", "hasType_accD", "node_scalar_dflt", "node_utuple_dflt",
-                             "node_ntuple_dflt", "src_typehints_pinned"],
-                "modules": ["KodaModel.Properties.C07", "KodaModel.Properties.C07Tree", "KodaModel.Properties.C07Tree2", "KodaModel.Properties.C07Dflt", "KodaModel.Properties.C07Pins"],
-                "level_note": "the text of koda_validate/typehints.py (whole module) the hand-written model `derive` was written against is pinned, statement by statement, against the text that is there now (src_typehints_pinned; Generated/PinsSrc.lean is regenerated on every run): a change there is an obligation that no longer checks and starts the failing-input search.  default resolver, for every annotation built from scalars, classes, Any, None, bare list / tuple, "
+                             "node_ntuple_dflt", "src_typehints_pinned", "src_typehint_simple_arms", "src_typehint_simple_arms_count"],
+                "modules": ["KodaModel.Properties.C07", "KodaModel.Properties.C07Tree", "KodaModel.Properties.C07Tree2", "KodaModel.Properties.C07Dflt", "KodaModel.Properties.C07Pins", "KodaModel.Properties.C07Src"],
+                "level_note": "src_typehint_simple_arms: the fifteen identity-tested arms of get_typehint_validator_base (scalars, None, Any, bare "
+                              "list / set / tuple / dict), read from the source on every run, return what the model's `derive .dflt` builds "
+                              "for the annotation of that name (decide).  the text of koda_validate/typehints.py (whole module) the hand-written model `derive` was written against is pinned, statement by statement, against the text that is there now (src_typehints_pinned; Generated/PinsSrc.lean is regenerated on every run): a change there is an obligation that no longer checks and starts the failing-input search.  default resolver, for every annotation built from scalars, classes, Any, None, bare list / tuple, "
                               "List[..], Tuple[T, ...], Tuple[A, B, ..], Maybe[..], Union[..] / Optional[..] (any nesting) and "
                               "every Python value: C07_default_tree_partial (the derived validator terminates and accepts exactly "
                               "the structural specification accD), C07_default_complete_partial (a value of the annotated type "
